@@ -8,6 +8,13 @@ def check(ctx):
     rep.floor("zone-mapping call sites (TimeZone::*, with_timezone)", n, 8)
     ng = tz.check_utc_guard(ctx, rep)
     rep.floor("zone-omission guard obligations", ng, 3)
+    nz = tz.check_zone_names(ctx, rep)
+    rep.floor("zone-name table obligations (T-ZONES)", nz, 2)
+    from rules import tz as _tzr
+    nr = _tzr.check_component_rebuild(ctx, rep)
+    rep.floor("timestamps rebuilt from components", nr, 1)
+    nu = _tzr.check_utc_shortcut(ctx, rep)
+    rep.floor("lookup-free UTC results in the Zinc reader", nu, 1)
     no = tz.check_offset_fields(ctx, rep)
     rep.floor("offset field obligations", no, 3)
     from rules import escapes
